@@ -333,6 +333,40 @@ type FaultInjector struct {
 	NotFoundReads bool
 	// NotFoundFilter, if set, limits NotFoundReads to the calls it accepts.
 	NotFoundFilter func(c simkube.Call) bool
+	// ErrClasses, if set, makes the kind of error an error-before outcome
+	// answers with a further (free) choice among the named classes (see
+	// ErrClassNames); the store must be given ErrBeforeFn = (*FaultInjector).ErrBefore.
+	// Code that treats one class of API error differently from the others
+	// (retries it, takes it for "absent") is only exercised that way.
+	ErrClasses []string
+	nextErr    error
+}
+
+// ErrClassNames are the classes of API error an injected error-before may
+// answer with: the API server's usual ways to fail a request that has had no
+// effect.
+var ErrClassNames = []string{"internal-error", "server-timeout", "timeout", "too-many-requests", "service-unavailable"}
+
+// ErrBefore is a simkube.Store.ErrBeforeFn.
+func (f *FaultInjector) ErrBefore(c simkube.Call) error {
+	e := f.nextErr
+	f.nextErr = nil
+	return e
+}
+
+func errOfClass(class string, c simkube.Call) error {
+	gr := schema.GroupResource{Group: c.Key.Group, Resource: strings.ToLower(c.Key.Kind) + "s"}
+	switch class {
+	case "server-timeout":
+		return kerrors.NewServerTimeout(gr, c.Verb, 1)
+	case "timeout":
+		return kerrors.NewTimeoutError("injected gateway timeout at "+c.String(), 1)
+	case "too-many-requests":
+		return kerrors.NewTooManyRequests("injected 429 at "+c.String(), 1)
+	case "service-unavailable":
+		return kerrors.NewServiceUnavailable("injected 503 at " + c.String())
+	}
+	return nil // the store's default: 500 InternalError
 }
 
 var writeOutcomes = []simkube.Outcome{simkube.OK, simkube.ErrBefore, simkube.Conflict, simkube.ErrAfter, simkube.CrashBefore, simkube.CrashAfter}
@@ -365,8 +399,14 @@ func (f *FaultInjector) Decide(c simkube.Call) simkube.Outcome {
 	}
 	i := f.Run.Choose(len(outs), "api:"+c.String())
 	if i != 0 {
-		f.Taken = append(f.Taken, fmt.Sprintf("%s -> %s", c, outs[i]))
-		f.Run.Logf("FAULT %s -> %s", c, outs[i])
+		what := fmt.Sprint(outs[i])
+		if outs[i] == simkube.ErrBefore && len(f.ErrClasses) > 1 {
+			k := f.Run.Free(len(f.ErrClasses), "error-class")
+			f.nextErr = errOfClass(f.ErrClasses[k], c)
+			what += "(" + f.ErrClasses[k] + ")"
+		}
+		f.Taken = append(f.Taken, fmt.Sprintf("%s -> %s", c, what))
+		f.Run.Logf("FAULT %s -> %s", c, what)
 	}
 	return outs[i]
 }
